@@ -22,6 +22,7 @@ package uncurry
 import (
 	"fmt"
 	"go/types"
+	"strconv"
 	"strings"
 
 	"github.com/awalterschulze/goderive/derive"
@@ -81,15 +82,31 @@ func (g *gen) Generate(typs []types.Type) error {
 	return g.genFuncFor(sig)
 }
 
-func uncurrySig(sig *types.Signature) (*types.Signature, *types.Tuple) {
+func uncurrySig(sig *types.Signature) (*types.Signature, *types.Tuple, *types.Tuple) {
 	params := vars(sig.Params())
 	res := vars(sig.Results())[0]
 	ressig := res.Type().(*types.Signature)
 	resparams := vars(ressig.Params())
-	newvars := append(params, resparams...)
+	// The two parameter lists end up in one: give them distinct names if they share one.
+	names := make(map[string]bool)
+	for _, v := range params {
+		names[v.Name()] = true
+	}
+	for _, v := range resparams {
+		if names[v.Name()] {
+			for i, o := range params {
+				params[i] = types.NewVar(o.Pos(), o.Pkg(), "param_"+strconv.Itoa(i), o.Type())
+			}
+			for i, o := range resparams {
+				resparams[i] = types.NewVar(o.Pos(), o.Pkg(), "innerParam_"+strconv.Itoa(i), o.Type())
+			}
+			break
+		}
+	}
+	newvars := append(append([]*types.Var{}, params...), resparams...)
 	newparams := types.NewTuple(newvars...)
 	f := types.NewSignature(nil, newparams, ressig.Results(), ressig.Variadic())
-	return f, ressig.Params()
+	return f, types.NewTuple(params...), types.NewTuple(resparams...)
 }
 
 func vars(tup *types.Tuple) []*types.Var {
@@ -113,9 +130,9 @@ func (g *gen) genFuncFor(ftyp *types.Signature) error {
 	g.Generating(ftyp)
 	fStr := g.TypeString(ftyp)
 	name := g.GetFuncName(ftyp)
-	gtyp, styp := uncurrySig(ftyp)
+	gtyp, ftup, styp := uncurrySig(ftyp)
 	gStr := g.TypeString(gtyp)
-	firstStr := varnames(ftyp.Params())
+	firstStr := varnames(ftup)
 	secondStr := varnames(styp)
 	p.P("")
 	p.P("// %s combines a function that returns a function, into one function.", name)
